@@ -68,7 +68,7 @@ def oracle(case, rec):
     key = "C04/" + which
     box = stoch.limit_steps(model, STEP_BUDGET if algo["exact"] else 60000)
     try:
-        out = call(key, case, stoch.run_raw, model, t_end, case["iters"], algo["exact"], su["np_seed"])
+        out = stoch.simulate("C04", key, case, stoch.run_raw, model, t_end, case["iters"], algo["exact"], su["np_seed"])
     except stoch.StepBudget:
         if algo["exact"]:
             # deterministic, count-based: the horizon was sized for <= ~3000 expected events per path
